@@ -186,6 +186,49 @@ def _run_lines(cmd, lines, env=None):
     return p.returncode, out, p.stderr.decode("utf-8", "replace")
 
 
+HANG_SECONDS = 12
+
+
+def _run_watch(cmd, lines, env, idle):
+    """Run cmd feeding lines; read result lines as they come. If no line
+    arrives for `idle` seconds the process is killed: the case in flight hangs.
+    Returns (output lines, 'ok' | 'hang' | 'died')."""
+    import threading, select
+    e = dict(os.environ)
+    if env:
+        e.update(env)
+    p = subprocess.Popen(cmd, shell=True, stdin=subprocess.PIPE, stdout=subprocess.PIPE, stderr=subprocess.DEVNULL, env=e)
+
+    def feed():
+        try:
+            p.stdin.write(("\n".join(lines) + "\n").encode())
+            p.stdin.close()
+        except Exception:
+            pass
+    t = threading.Thread(target=feed, daemon=True)
+    t.start()
+    out, buf, why = [], b"", "ok"
+    fd = p.stdout.fileno()
+    while True:
+        r, _, _ = select.select([fd], [], [], idle)
+        if not r:
+            why = "hang"
+            p.kill()
+            break
+        chunk = os.read(fd, 1 << 20)
+        if not chunk:
+            break
+        buf += chunk
+        if b"\n" in chunk:
+            parts = buf.split(b"\n")
+            buf = parts.pop()
+            out.extend(x.decode("utf-8", "replace") for x in parts)
+    p.wait()
+    if why == "ok" and len(out) < len(lines):
+        why = "died"
+    return out, why
+
+
 def run_model(hexcases):
     """Run the extracted model on all cases (sharded over the cores)."""
     from concurrent.futures import ThreadPoolExecutor
@@ -227,12 +270,19 @@ def run_impl(hexcases, env=None):
     def work(sh_):
         res = []
         pos = 0
+        hangs = 0
         while pos < len(sh_):
-            rc, out, err = _run_lines("ulimit -v 8000000; " + HARNESS, sh_[pos:], env=env)
+            if hangs >= 2:
+                # two hangs are enough to decide; do not wait for the rest of this shard
+                res.extend(["NOT-RUN"] * (len(sh_) - pos))
+                break
+            out, why = _run_watch("ulimit -v 8000000; " + HARNESS, sh_[pos:], env, HANG_SECONDS)
             res.extend(out[:len(sh_) - pos])
             pos += len(out)
             if pos < len(sh_):
-                res.append("ABORT")
+                if why == "hang":
+                    hangs += 1
+                res.append("HANG" if why == "hang" else "ABORT")
                 pos += 1
         return res[:len(sh_)]
 
